@@ -161,6 +161,9 @@ def run_unit(unit, ctx):
         if prev_dt is not None and pi % 2 == 1:
             pt[defn["dt"]] = prev_dt
         prev_dt = pt[defn["dt"]]
+        if gen.outside_domain(defn, pt, pt, float(pt[defn["dt"]])):
+            R.stats.inc("points_skipped_outside_domain")
+            continue
         st, st_kind = gen.typed_state(rng, defn, pt, ekf.State, monitors.names_of)
         if st_kind:
             R.stats.inc(f"states_handed_over_as_{st_kind}")
